@@ -1,4 +1,5 @@
 """C07 - status, message and success describe what actually happened."""
+import math
 import numpy as np
 
 from vlib import e2e, gen, mrun, oracles
@@ -104,9 +105,37 @@ def make_spec(case):
                                 "stop_at": k}
         elif trig == "maxfev":
             o["maxfev"] = int(rng.integers(1, npt + 1))
-        else:
+        elif rng.random() < 0.5:
             spec["faults"] = [{"target": "obj", "val": str(rng.choice(
                 ["nan", "inf", "-inf"])), "when": {"all": True}}]
+            if rng.random() < 0.3:
+                # target at / beyond the extreme barrier
+                o["target"] = float(rng.choice([math.inf, 1e35]))
+        else:
+            # undefined values at the FIRST evaluation(s) only, then a
+            # request that an ordinary later point satisfies
+            first = [0] if rng.random() < 0.6 else [0, 1]
+            tgt = "obj" if (con in ("none", "lin") or rng.random() < 0.5) \
+                else "con"
+            f = {"target": tgt, "val": str(rng.choice(["nan", "nan", "inf"])),
+                 "when": {"idx": first}}
+            if tgt == "con":
+                f["j"] = 0
+                f["comp"] = None
+            spec["faults"] = [f]
+            if rng.random() < 0.7:
+                o["target"] = 1e30 if rng.random() < 0.6 else float(
+                    rng.uniform(0, 50))
+            else:
+                spec["obj"] = {"kind": "none"}
+                if con in ("none",):
+                    spec["lin"] = gen.linear_constraints(
+                        rng, n, np.asarray(spec["x0"]), count=1,
+                        kinds=("upper", "lower", "two"))
+                    spec["con_kind"] = "lin"
+                if f["target"] == "obj":
+                    spec["faults"] = []
+            trig = "nonfinite_first"
         spec["trigger"] = "init/" + trig
     else:
         trig = str(rng.choice(["radius", "target", "feas", "callback",
